@@ -1,0 +1,31 @@
+package cmd
+
+import (
+	"os"
+	"path/filepath"
+)
+
+// toWorkTreePaths rewrites path arguments the way paths are stored in the index: relative to
+// the current directory, whatever spelling (absolute, "dir/../dir/file", "../here/file") was used.
+// An empty argument is left as it is (it names nothing).
+func toWorkTreePaths(args []string) []string {
+	curPath, err := os.Getwd()
+	if err != nil {
+		return args
+	}
+	paths := make([]string, len(args))
+	for i, arg := range args {
+		paths[i] = arg
+		if arg == "" {
+			continue
+		}
+		absPath, err := filepath.Abs(arg)
+		if err != nil {
+			continue
+		}
+		if relPath, err := filepath.Rel(curPath, absPath); err == nil {
+			paths[i] = relPath
+		}
+	}
+	return paths
+}
